@@ -186,6 +186,67 @@ def r20_13(ck: Check) -> None:
         ck.unknown("R20.13", "instances", "only %d functions found below handle_message_received" % len(seen))
 
 
+def r20_14(ck: Check) -> None:
+    """what a peer delivers is applied to the chain state without in-state validation on the bulk-download path (every N-th block is
+    validated). Whatever that path lets through, the height index must stay gapless - the managers' own steps look blocks up by height
+    outside any per-connection handler (`get_get_blocks_message`: `by_height_at_head()[h]` for h below the head's height), so a head
+    that claims a height other than its parent's plus one ends the event loop at the next step. Hence: the relay handler applies a
+    block only after refusing `height != parent.height + 1` itself."""
+    s = ck.summ(CRP + "handle_block_received", 0)
+    sp = Spec(s, ("self", "header", "message"))
+    adds = [e for e in s.events if e.kind == "call" and not e.chain and any(t.endswith("CoinState.add_block_no_validation") for t in e.targets)]
+    construct = "handle_block_received applies a block only if its height is its parent's plus one (checked before add_block_no_validation)"
+    if not adds:
+        ck.unknown("R20.14", construct, "no call of add_block_no_validation found in the relay handler")
+        return
+    h = sp.term("message.data.header.summary.height")
+    ph = sp.term("self.local_peer.chain_manager.coinstate.block_by_hash[message.data.header.summary.previous_block_hash].header.summary.height")
+    ok = True
+    for e in adds:
+        cs = {x for c in e.pc for x in conjuncts(c.term)}
+        linked = any(_is_height_link(x, h, ph) for x in cs)
+        if not linked:
+            ok = False
+            ck.violated("R20.14", construct, "a block tagged as an answer (in_response_to != 0) skips in-state validation; with a made-up height it "
+                        "becomes the head, ChainManager.get_get_blocks_message then raises KeyError in step(), outside every per-connection "
+                        "handler, and LocalPeer.run ends: one message stops the node", e.loc)
+    if ok:
+        ck.ok("R20.14", construct, "", adds[0].loc)
+    # the look-up that relies on it
+    g = ck.summ("skepticoin.networking.manager.ChainManager.get_get_blocks_message", 0)
+    ck.analysed(g.fi.qualname)
+
+
+def _is_height_link(x: Term, h: Term, ph: Term) -> bool:
+    """x says h == ph + 1 in one of the normal forms of the comparison"""
+    from ..engine.terms import lin_parts
+    if x[0] == "cmpz" and x[1] == "==":
+        pairs = [(x[2], C(0))]
+    elif x[0] == "cmp" and x[1] == "==":
+        pairs = [(x[2], x[3]), (x[3], x[2])]
+    else:
+        return False
+    for a, b in pairs:
+        try:
+            la, lb = lin_parts(a), lin_parts(b)
+        except Exception:
+            continue
+        if la is None or lb is None:
+            continue
+        d: Dict[Any, int] = {}
+        for t_, k_ in la[0].items():
+            d[t_] = d.get(t_, 0) + k_
+        for t_, k_ in lb[0].items():
+            d[t_] = d.get(t_, 0) - k_
+        const = la[1] - lb[1]
+        d = {t_: k_ for t_, k_ in d.items() if k_}
+        if d == {h: 1, ph: -1} and const == -1:
+            return True
+        if d == {h: -1, ph: 1} and const == 1:
+            return True
+    return False
+
+
 def r20_3(ck: Check) -> None:
     s = ck.summ(CRP + "handle_message_received", 0)
     sp = Spec(s, ("self", "header", "message"))
@@ -645,6 +706,7 @@ def check(ck: Check) -> None:
     ck.run("R20.11", "per-connection state is per connection", lambda: r20_11(ck))
     ck.run("R20.12", "the catch-all's handlers cannot fail themselves", lambda: r20_12(ck))
     ck.run("R20.13", "what a peer says never re-files a connection", lambda: r20_13(ck))
+    ck.run("R20.14", "a delivered block is applied only with its height linked to its parent's", lambda: r20_14(ck))
     ck.run("R20.8", "the event loop ends only through its flag, dispatches every ready socket, and never waits unboundedly", lambda: r20_8(ck))
     from .c09 import r09_5
     ck.run("R09.5", "buffering a block before validation writes nothing", lambda: r09_5(ck))
